@@ -394,7 +394,13 @@ def run(E: Engine, rep: Report, tier: str) -> dict:
             if e.kind == "write" and any(fl_ in ("_calls", "_to_build_calls") for _o, fl_ in e.places):
                 rec = (node, i, e)
         if rec is None:
-            # through a local alias (call_container.append)
+            # through a private helper that appends the record: the call of that helper is the record site
+            for node, i, e in evs:
+                if e.kind == "call" and any(c_.innermost().name.startswith("_") for c_, _m in e.callees):
+                    w_, _r = S.event_effects(flm, node, e)
+                    if any(x.field in ("_calls", "_to_build_calls") for x in E.state_writes(w_)):
+                        rec = (node, i, e)
+        if rec is None:
             raise AnalysisError(f"anchor: manual record site of {name} not found")
         after = flm.reachable_from(rec[0].id)
         later_w, later_r = [], []
